@@ -156,11 +156,19 @@ impl Key {
 
     /// Gets the hash value for this key.
     pub fn get_hash(&self) -> u64 {
+        #[cfg(metrics_verif)]
+        crate::verif::point("key.hashed.load.pre", &[]);
         if self.hashed.load(Ordering::Acquire) {
+            #[cfg(metrics_verif)]
+            crate::verif::point("key.hash.load.pre", &[]);
             self.hash.load(Ordering::Acquire)
         } else {
             let hash = generate_key_hash(&self.name, &self.labels);
+            #[cfg(metrics_verif)]
+            crate::verif::point("key.hash.store.pre", &[]);
             self.hash.store(hash, Ordering::Release);
+            #[cfg(metrics_verif)]
+            crate::verif::point("key.hashed.store.pre", &[]);
             self.hashed.store(true, Ordering::Release);
             hash
         }
